@@ -357,7 +357,8 @@ func (g *gen) writeExprBinaryOp(b *buffer, n *a.Expr, depth uint32) error {
 	} else if lhsWiden {
 		b.writes("((uint32_t)(")
 	}
-	if err := g.writeExprRepr(b, n.LHS().AsExpr(), depth); err != nil {
+	signed := isSignedInteger(n.LHS().AsExpr().MType()) || isSignedInteger(n.RHS().AsExpr().MType())
+	if err := g.writeExprOperand(b, n.LHS().AsExpr(), signed, depth); err != nil {
 		return err
 	}
 	if lhsCast || lhsWiden {
@@ -366,7 +367,7 @@ func (g *gen) writeExprBinaryOp(b *buffer, n *a.Expr, depth uint32) error {
 
 	b.writes(opName)
 
-	if err := g.writeExprRepr(b, n.RHS().AsExpr(), depth); err != nil {
+	if err := g.writeExprOperand(b, n.RHS().AsExpr(), signed, depth); err != nil {
 		return err
 	}
 
@@ -375,6 +376,36 @@ func (g *gen) writeExprBinaryOp(b *buffer, n *a.Expr, depth uint32) error {
 	}
 	b.writeb(')')
 	return nil
+}
+
+// isSignedInteger returns whether typ is one of base.i8, base.i16, base.i32 or
+// base.i64 (possibly refined).
+func isSignedInteger(typ *a.TypeExpr) bool {
+	if (typ == nil) || (typ.Decorator() != 0) {
+		return false
+	}
+	if qid := typ.QID(); qid[0] == t.IDBase {
+		switch qid[1] {
+		case t.IDI8, t.IDI16, t.IDI32, t.IDI64:
+			return true
+		}
+	}
+	return false
+}
+
+// writeExprOperand writes an operand of a binary or associative operator. If
+// signed is true (some other operand has a signed integer type), a constant
+// operand is written without the "u" suffix that writeExpr would give it: in
+// C, "x < 255u" converts a negative int x to unsigned, so that the comparison
+// is false (and "x + 1u" is an unsigned sum).
+func (g *gen) writeExprOperand(b *buffer, n *a.Expr, signed bool, depth uint32) error {
+	if signed {
+		if cv := n.ConstValue(); (cv != nil) && n.MType().IsNumTypeOrIdeal() {
+			b.writes(cv.String())
+			return nil
+		}
+	}
+	return g.writeExprRepr(b, n, depth)
 }
 
 func (g *gen) writeExprRepr(b *buffer, n *a.Expr, depth uint32) error {
@@ -499,6 +530,8 @@ func (g *gen) writeExprAssociativeOp(b *buffer, n *a.Expr, depth uint32) error {
 	// uint32_t one.
 	widen := (op == t.IDXAssociativeStar) && n.MType().IsSmallInteger()
 
+	signed := isSignedInteger(n.MType())
+
 	b.writeb('(')
 	for i, o := range n.Args() {
 		if i != 0 {
@@ -506,7 +539,7 @@ func (g *gen) writeExprAssociativeOp(b *buffer, n *a.Expr, depth uint32) error {
 		} else if widen {
 			b.writes("((uint32_t)(")
 		}
-		if err := g.writeExpr(b, o.AsExpr(), false, depth); err != nil {
+		if err := g.writeExprOperand(b, o.AsExpr(), signed, depth); err != nil {
 			return err
 		}
 		if (i == 0) && widen {
